@@ -24,5 +24,13 @@ p = "/verif/DESIGN.md"
 s = open(p).read()
 s = re.sub(r"<!-- BEGIN-SELFTEST-TABLE -->.*?<!-- END-SELFTEST-TABLE -->", "<!-- BEGIN-SELFTEST-TABLE -->\n" + tbl.replace("\\", "\\\\") + "\n<!-- END-SELFTEST-TABLE -->", s, flags=re.S)
 s = re.sub(r"<!-- BEGIN-SEEDED-TABLE -->.*?<!-- END-SEEDED-TABLE -->", "<!-- BEGIN-SEEDED-TABLE -->\n" + stbl.replace("\\", "\\\\") + "\n<!-- END-SEEDED-TABLE -->", s, flags=re.S)
+benign = []
+for mf in sorted(glob.glob("/verif/benign/*/meta.json")):
+    m = json.load(open(mf))
+    kind = str(m.get("kind") or "")[:110].replace("|", "/").replace("\n", " ")
+    fns = ", ".join(str(x).split("/")[-1] for x in (m.get("functions") or []))[:110].replace("|", "/")
+    benign.append(f"| `{os.path.basename(os.path.dirname(mf))}` | {m['property']}{' +' + ','.join(m['also_run_under']) if m.get('also_run_under') else ''} | {fns} | {kind} |")
+btbl = ("| id | run under | functions | kind of refactoring |\n|---|---|---|---|\n" + "\n".join(benign)) if benign else "(none yet)"
+s = re.sub(r"<!-- BEGIN-BENIGN-TABLE -->.*?<!-- END-BENIGN-TABLE -->", "<!-- BEGIN-BENIGN-TABLE -->\n" + btbl.replace("\\", "\\\\") + "\n<!-- END-BENIGN-TABLE -->", s, flags=re.S)
 open(p, "w").write(s)
-print("variants:", len(VARIANTS), "seeded:", len(seeded))
+print("variants:", len(VARIANTS), "seeded:", len(seeded), "benign:", len(benign))
